@@ -2,7 +2,7 @@
 UNITS = {
     "health": dict(engine="verus", serves=["C20"]),
     "health_sites": dict(engine="verus", serves=["C20"]),
-    "authz": dict(engine="verus", serves=["C02", "C11", "C13", "C01"]),
+    "authz": dict(engine="verus", serves=["C02", "C11", "C13", "C01", "C04"]),
     "handler": dict(engine="verus", serves=["C01", "C03", "C05", "C10", "C11", "C14", "C15"]),
     "disk": dict(engine="verus", serves=["C19"]),
     "provision": dict(engine="verus", serves=["C16"]),
@@ -226,7 +226,7 @@ PROPERTIES["C14"] = dict(
 )
 
 PROPERTIES["C04"] = dict(
-    units=["sign", "handler"],
+    units=["sign", "handler", "authz"],   # authz: hyper_client::query_pairs (the parameter list the canonical string is built from) is proved there
     technique="Verus contracts on the extracted real functions: canonical-string spec from the statement (ascending enumeration proved unique/existing; stable sort for parameters), loop invariants over HashMap + sorted-key iteration, builder-state contracts for the agent's own requests, capability precondition on the upstream send",
     level_text="Deductive proof (Verus/Z3), all methods/URIs/header maps/bodies: should_skip_sig, compute_signature, as_sig_input, request_to_sign_input, headers_to_canonicalized_string, get_path_and_canonicalized_parameters, build_request and get (verbatim) are proved against sig_input_spec/mac_spec/skip_spec written from the statement; both signing routes compute the same spec function; canon_h is proved independent of the authorization header, so with handler's G6 (the header value is scheme, key id and the MAC of the canonical string of exactly the request handed to the upstream primitive) the MAC is over what is sent; build_request signs last, over its own parts and the body it sends.",
     level_note="Trusted: Verus/Z3/rustc; assumed specs listed in contracts/sign/unit.py ASSUMPTIONS (hmac/hex uninterpreted; http HeaderMap::iter/HeaderName/HeaderValue/request::Builder; str::to_lowercase/trim; sorted() order; generated format! stubs); the host's canonicaliser is the algorithm in the source comment. Known finding F4 (clause all_pairs: key||value collisions merge parameters; proved correct whenever no two pairs collide). Repeated header names are signed by their last value (F9, observation). Header values with bytes outside visible ASCII are signed by their lossy UTF-8 text (fix c24cea7; host rule undocumented), never panic. Not covered: hyper's own Host/Content-Length regeneration on the wire.",
